@@ -218,7 +218,7 @@ theorem C13_ws_wrong_type_1003 (cfg : Cfg) (s : St) (h : GB.LTS.Reachable (step 
   · rw [closeFrame_reason]; rfl
   · rw [closeFrame_reason]
     simp only [websocketError]
-    have hfix : ∀ eb : Bool, closeReason (reasonPrefix 3 ++ (if eb then msgExpectedBinary else msgExpectedText)) =
+    have hfix : ∀ eb : Bool, closeReasonWhole (reasonPrefix 3 ++ (if eb then msgExpectedBinary else msgExpectedText)) =
         reasonPrefix 3 ++ (if eb then msgExpectedBinary else msgExpectedText) := by decide
     rw [hfix]
     exact List.prefix_append _ _
@@ -271,10 +271,10 @@ theorem C13_close_error (c : Nat) (m : Bytes) (hc : c < 2 ^ 32) :
   have hpre : reasonPrefix c <+: toValidUTF8 (reasonPrefix c ++ m) := by
     rw [toValidUTF8_ascii_prefix _ _ (reasonPrefix_ascii c hc)]; exact List.prefix_append _ _
   have hl := reasonPrefix_len c hc
-  refine ⟨trivial, truncReason_keeps_prefix_valid _ _ (by omega) hpre hv, closeReason_length _,
-    truncReason_valid _ hv, truncReason_prefix _, ?_, truncReason_loses_le3 _ hv⟩
+  refine ⟨trivial, closeReason_keeps_prefix_valid _ _ (by omega) hpre hv, closeReasonWhole_length _,
+    closeReason_valid _ hv, closeReason_prefix _, ?_, closeReason_loses_le3 _ hv⟩
   rw [← toValidUTF8_ascii_prefix _ _ (reasonPrefix_ascii c hc)]
-  exact truncReason_prefix _
+  exact closeReason_prefix _
 
 /-- `codes.Code.String()` of a code without a name: `Code(<decimal>)` — the prefix the close reason of such a
     status starts with (e.g. `code Code(17): `, `code Code(4294967295): `). -/
@@ -287,14 +287,14 @@ theorem C13_close_unknown_code_prefix :
 /-- `strings.ToValidUTF8`: the result is valid UTF-8 for every input. -/
 theorem C13_toValidUTF8_valid (s : Bytes) : ValidUTF8 (toValidUTF8 s) = true := toValidUTF8_valid s
 
-/-- The cut on valid UTF-8 (what `closeReason` does after sanitising): the result is valid, a prefix, at most
+/-- The cut on valid UTF-8 (what `closeReasonWhole` does after sanitising): the result is valid, a prefix, at most
     123 bytes, and when something is cut at least 120 bytes remain; the cut is at 0 or right before a byte
     that starts a rune — never inside a rune. Valid UTF-8 never has four continuation bytes in a row, which
     is what bounds the back-off loop. -/
 theorem C13_close_cut_valid (v : Bytes) (hv : ValidUTF8 v = true) :
-    ValidUTF8 (truncReason v) = true ∧ truncReason v <+: v ∧ (truncReason v).length ≤ 123 ∧
-    (123 < v.length → 120 ≤ (truncReason v).length) :=
-  ⟨truncReason_valid v hv, truncReason_prefix v, truncReason_length v, truncReason_loses_le3 v hv⟩
+    ValidUTF8 (closeReason v) = true ∧ closeReason v <+: v ∧ (closeReason v).length ≤ 123 ∧
+    (123 < v.length → 120 ≤ (closeReason v).length) :=
+  ⟨closeReason_valid v hv, closeReason_prefix v, closeReason_length v, closeReason_loses_le3 v hv⟩
 
 /-- What `ValidUTF8` rejects, as Go's `utf8.Valid` does: overlong forms, surrogates, code points above
     U+10FFFF, stray continuation bytes, truncated runes; and accepts the boundary code points. -/
@@ -318,9 +318,9 @@ theorem C13_toValidUTF8_examples :
 
 /-- The cut never splits a rune: a shortened reason ends right before a byte that starts a rune. -/
 theorem C13_close_reason_rune_boundary (r : Bytes) (h : 123 < r.length) :
-    ∃ n, truncReason r = r.take n ∧ n ≤ 123 ∧ (n = 0 ∨ ∀ b, r[n]? = some b → runeStart b = true) := by
+    ∃ n, closeReason r = r.take n ∧ n ≤ 123 ∧ (n = 0 ∨ ∀ b, r[n]? = some b → runeStart b = true) := by
   refine ⟨truncPoint r 123, ?_, truncPoint_le r 123, truncPoint_boundary r 123⟩
-  unfold truncReason maxCloseReasonLen
+  unfold closeReason maxCloseReasonLen
   simp [Nat.not_le.2 h]
 
 set_option maxRecDepth 100000 in
@@ -672,3 +672,107 @@ theorem C13_ws_awaiting_client_example :
     ((GB.LTS.run (step cfg) init [.recvCall, .readerExit, .recvCtx, .closeDone]).map (fun s => (returned s, s.result))
       = some (true, some .ctx)) := by
   decide
+
+/-! ## ===== round 5 (deepening): flush per message =====
+
+  A server-streaming client must see message i before message i+1 is even produced. The model of the response
+  loop (`streamTrace`: target `Recv` i → one `Write` of the framed record → `Flush`) is tied to the code by the
+  regenerated facts `httpStreamSendShape` / `streamEncoderWrites` (`C13_facts_flush`) and by the observed
+  event trace of every HTTP case (recording ResponseWriter + target log, compared event for event). -/
+
+/-- At the moment the target is asked for message `i` (and at the end of the stream), everything written so
+    far has been flushed: the client can see exactly the first `i` records, nothing is held back in the
+    server's buffer — for every number of messages and every payload. -/
+theorem C13_flush_visible_before_next (sse : Bool) (ps : List Bytes) (i : Nat) (hi : i ≤ ps.length) :
+    ∃ post, streamTrace sse ps = streamTrace sse (ps.take i) ++ post ∧
+      (i < ps.length → post.head? = some (.targetRecv i)) ∧ (i = ps.length → post = []) ∧
+      wireRun (streamTrace sse (ps.take i)) = { buffered := [], visible := streamBody sse (ps.take i) } := by
+  refine ⟨streamTraceFrom (sendEvents sse) i (ps.drop i), ?_, ?_, ?_, ?_⟩
+  · have h := streamTraceFrom_append (sendEvents sse) 0 (ps.take i) (ps.drop i)
+    rw [List.take_append_drop, List.length_take, Nat.min_eq_left hi, Nat.zero_add] at h
+    exact h
+  · intro hlt
+    cases hd : ps.drop i with
+    | nil => have := congrArg List.length hd; simp at this; omega
+    | cons p rest => simp [streamTraceFrom]
+  · intro he
+    rw [he, List.drop_length]
+    rfl
+  · unfold wireRun streamTrace
+    rw [wire_streamTraceFrom]
+    simp
+
+/-- …so what the client has parsed by then is exactly the first `i` messages (NDJSON and SSE). -/
+theorem C13_flush_client_sees_before_next (sse : Bool) (ps : List Bytes) (i : Nat)
+    (h : ∀ b ∈ ps, LF ∉ b ∧ (sse = true → CR ∉ b ∧ b.head? ≠ some SP)) :
+    (if sse then parseSSE (wireRun (streamTrace sse (ps.take i))).visible
+     else splitLines (wireRun (streamTrace sse (ps.take i))).visible) = ps.take i := by
+  have hw : wireRun (streamTrace sse (ps.take i)) = { buffered := [], visible := streamBody sse (ps.take i) } := by
+    unfold wireRun streamTrace
+    rw [wire_streamTraceFrom]
+    simp
+  rw [hw]
+  have hsub : ∀ b ∈ ps.take i, b ∈ ps := fun b hb => List.mem_of_mem_take hb
+  cases sse with
+  | false => exact C13_lines _ (fun b hb => (h b (hsub b hb)).1)
+  | true => exact C13_sse _ (fun b hb => ⟨(h b (hsub b hb)).1, (h b (hsub b hb)).2 rfl⟩)
+
+/-- The discipline the driver demands of every observed trace holds for the model's loop. -/
+theorem C13_flush_discipline (sse : Bool) (ps : List Bytes) : flushedBeforeRecv false (streamTrace sse ps) = true :=
+  flushed_streamTraceFrom sse 0 ps
+
+/-- Without the flush (seeded variant M2) the client sees nothing when the second message is produced. -/
+theorem C13_flush_missing_witness :
+    let tr := streamTraceFrom (sendEventsNoFlush false) 0 [[97], [98]]
+    flushedBeforeRecv false tr = false ∧ (wireRun (tr.take 2)).visible = [] ∧ (wireRun (tr.take 2)).buffered = [97, 10] := by
+  decide
+
+/-- Facts tie (regenerated from webbridge/http.go, transcoding/json.go, transcoding/http.go on every run): in
+    `httpStream.send` the statement after `respstream.Transcode(msg)` is `s.flusher.Flush()`; `jsonEncoder.Encode`
+    performs exactly one `Write(append(b, jsonDelimiter))` with `jsonDelimiter = '\n'` (= `jsonLine`),
+    `sseResponseStream.Transcode` exactly one `Write(slices.Concat("data:", b, "\n\n"))` (= `sseEvent`): one
+    `Write` per record, one `Flush` per `Write` — the shape `sendEvents` models. A removed or moved `Flush`, a
+    second `Write`, a changed delimiter break this theorem. -/
+theorem C13_facts_flush :
+    flushFollowsTranscode GB.Generated.httpStreamSendShape = true ∧
+    encoderWritesOK GB.Generated.streamEncoderWrites GB.Generated.jsonDelimiterLit = true := by decide
+
+/-! ## ===== round 5: where record framing is applied (seeded C13-m10) =====
+
+  The WebSocket handshake's headers go through the same `Bind` as an HTTP request, so a handshake with
+  `Accept: text/event-stream` on a server-streaming method binds the response transcoder as SSE. That must not
+  show in the frames: `gwsStream.send` builds each message from the per-message `Transcode`, which returns the
+  marshaler's bare document for every binding; `data:…\n\n` is written by `sseResponseStream.Transcode` only. -/
+
+/-- WebSocket messages do not depend on the SSE flag of the binding: one message per response, payload = the
+    marshaler's document, opcode = the response marshaler's binary flag — the same frames as for the binding
+    with `isSSE` cleared; while over HTTP the same binding streams `data:` events. -/
+theorem C13_ws_frames_independent_of_sse (b : Bound) (ps : List Bytes) :
+    (wsFrames transcodeMsg b ps).map (·.payload) = ps ∧
+    wsFrames transcodeMsg b ps = wsFrames transcodeMsg { b with isSSE := false } ps ∧
+    wsFrames transcodeMsg b ps = wsOut b.respM.binary ps ∧
+    httpStreamBody b ps = streamBody b.isSSE ps := by
+  refine ⟨?_, rfl, rfl, ?_⟩
+  · simp [wsFrames, wsSend, transcodeMsg, Function.comp_def]
+  · have h : transcodeMsg b = id := rfl
+    unfold httpStreamBody
+    rw [h, List.map_id]
+
+/-- The seeded variant C13-m10 (framing inside the per-message `Transcode` of an SSE-bound transcoder): the
+    HTTP SSE body is byte-identical for EVERY binding and message list — which is why the repository's own SSE
+    tests cannot see it — but an SSE-bound WebSocket call sends `data:{}\n\n` instead of `{}`. -/
+theorem C13_ws_frames_m10_fails :
+    (∀ (b : Bound) (ps : List Bytes), httpStreamBodyM10 b ps = httpStreamBody b ps) ∧
+    (let b : Bound := { reqM := jsonMarshaler, respM := jsonMarshaler, isSSE := true }
+     (wsFrames transcodeMsgM10 b [[123, 125]]).map (·.payload) = [[100, 97, 116, 97, 58, 123, 125, 10, 10]] ∧
+     (wsFrames transcodeMsg b [[123, 125]]).map (·.payload) = [[123, 125]]) := by
+  refine ⟨?_, by decide⟩
+  intro b ps
+  cases hb : b.isSSE <;>
+    simp [httpStreamBodyM10, httpStreamBody, streamBody, transcodeMsgM10, transcodeMsg, sseEvent, hb, List.flatMap_map]
+
+/-- Facts tie: the per-message `standardResponseTranscoder.Transcode` neither reads `isSSE` nor contains a framing
+    literal (regenerated from transcoding/http.go on every run; together with `C13_facts_flush`: the `data:` wrapping
+    sits in `sseResponseStream.Transcode`'s single `Write`). Every `bind` case of the run also compares the real
+    `Transcode` output of the bound transcoder with the marshaler's bare document. -/
+theorem C13_facts_framing_site : GB.Generated.responseTranscodeFramingMentions = [] := by decide
